@@ -78,7 +78,7 @@ class StdlibMixin:
             if any(mentions(path, u) for u in st.ghost.get("uuids", [])):
                 # [E-UUID] a name derived from a fresh uuid4 does not name an existing file
                 eng.note("[E-UUID]")
-                st.assume(st.sel("FS", path) == VAbsent, st.sel("Res", path) == VAbsent)
+                st.assume(st.sel("FS", path) == VAbsent, st.sel("Res", path) == VAbsent, z3.Not(smt.known_name(path)))
             # may fail before creating/truncating anything (EACCES, ENOSPC, ENAMETOOLONG ...)
             y = st.copy()
             y.event("io-fault", "open-w")
